@@ -39,6 +39,7 @@ Abs(txt, op, statics) ==
     [] op.op = "from_char"     -> A(Set(txt, op.h, op.s), "ok", <<>>, "")
     [] op.op = "clone"         -> A(Set(txt, op.h, txt[op.g]), "ok", <<>>, "")
     [] op.op = "clone_from"    -> A(Set(txt, op.h, txt[op.g]), "ok", <<>>, "")
+    [] op.op = "clone_ovf"     -> A(txt, "panic", <<>>, "rcoverflow")
     [] op.op = "drop"          -> A(Set(txt, op.h, DeadT), "ok", <<>>, "")
     [] op.op = "reserve"       -> A(txt, "ok", <<>>, "")
     [] op.op = "shrink_to"     -> A(txt, "ok", <<>>, "")
